@@ -14,6 +14,7 @@ import (
 	"encoding/json"
 	"fmt"
 	"math"
+	"reflect"
 	"strings"
 	"time"
 
@@ -252,7 +253,11 @@ func genC17(cw *caseWriter, seed uint64, tier string) {
 			emitProbe(cw, fmt.Sprintf("%s.GetValueAtIndex(%d)", rn, i), func() string { _, ok := mk().GetValueAtIndex(ii); return fmt.Sprintf("%v", ok) })
 			emitProbe(cw, fmt.Sprintf("%s.SetAtIndex(%d)", rn, i), func() string { rr := mk(); rr.SetAtIndex(ii, 1); return fmt.Sprintf("%d", rr.Len()) })
 			emitProbe(cw, fmt.Sprintf("%s.ImportAtIndex(%d)", rn, i), func() string { rr := mk(); return fmt.Sprintf("%v", rr.ImportAtIndex(ii, "x") == nil) })
-			emitProbe(cw, fmt.Sprintf("%s.SetValueAtIndex(%d)", rn, i), func() string { rr := mk(); rr.SetValueAtIndex(ii, jsonline.NewValueAuto(1)); return fmt.Sprintf("%d", rr.Len()) })
+			emitProbe(cw, fmt.Sprintf("%s.SetValueAtIndex(%d)", rn, i), func() string {
+				rr := mk()
+				rr.SetValueAtIndex(ii, jsonline.NewValueAuto(1))
+				return fmt.Sprintf("%d", rr.Len())
+			})
 		}
 		for _, p := range []string{"", ".", "..", "a", "a.b", "s", "s.x", "s.x.y", "s.", ".s", "arr", "arr.y", "arr.y.z", "g", "g.x", "absent", "absent.x", "a.b.c.d", "t.x"} {
 			pp := p
@@ -268,6 +273,19 @@ func genC17(cw *caseWriter, seed uint64, tier string) {
 		emitProbe(cw, rn+".MapTo(struct value)", func() string { var t mapTarget; mk().MapTo(t); return "done" })
 		emitProbe(cw, rn+".MapTo(&int)", func() string { var t int; mk().MapTo(&t); return "done" })
 		emitProbe(cw, rn+".MapTo((*mapTarget)(nil))", func() string { mk().MapTo((*mapTarget)(nil)); return "done" })
+		// every kind of stored value against every kind of field: one-field struct types built with reflect
+		fieldTypes := []reflect.Type{reflect.TypeOf(""), reflect.TypeOf(int(0)), reflect.TypeOf(int8(0)), reflect.TypeOf(uint(0)), reflect.TypeOf(uint8(0)), reflect.TypeOf(float64(0)), reflect.TypeOf(float32(0)),
+			reflect.TypeOf(true), reflect.TypeOf([]byte(nil)), reflect.TypeOf((*int)(nil)), reflect.TypeOf((*interface{})(nil)).Elem(), reflect.TypeOf(time.Time{}), reflect.TypeOf(struct{ By string }{}),
+			reflect.TypeOf(struct {
+				Time  time.Time
+				Valid bool
+			}{}), reflect.TypeOf(map[string]int(nil)), reflect.TypeOf([]string(nil)), reflect.TypeOf([2]byte{}), reflect.TypeOf((func())(nil)), reflect.TypeOf((chan int)(nil)), reflect.TypeOf(time.Duration(0)), reflect.TypeOf(json.Number(""))}
+		for _, k := range []string{"a", "b", "c", "d", "e", "f", "g", "s", "arr", "t", "n", "cell"} {
+			for _, ft := range fieldTypes {
+				st := reflect.StructOf([]reflect.StructField{{Name: strings.ToUpper(k[:1]) + k[1:], Type: ft}})
+				emitProbe(cw, rn+".MapTo(&struct{"+strings.ToUpper(k[:1])+k[1:]+" "+ft.String()+"})", func() string { mk().MapTo(reflect.New(st).Interface()); return "done" })
+			}
+		}
 		emitProbe(cw, rn+".String/DebugString/Raw/Export", func() string {
 			rr := mk()
 			_ = rr.String()
